@@ -810,7 +810,12 @@ func (r *Run) Finish() {
 		} else {
 			_ = os.WriteFile(path, b, 0o644)
 		}
-		fmt.Printf("VIOLATION property=%s replay=%s\n", r.Prop, path)
+		if r.lastFail.Signature == "harness" {
+			// a failure of the machinery itself is never reported as a violation of the property
+			fmt.Printf("HARNESS-FAILURE property=%s (inconclusive) details=%s\n", r.Prop, path)
+		} else {
+			fmt.Printf("VIOLATION property=%s replay=%s\n", r.Prop, path)
+		}
 		fmt.Printf("  signature=%s part=%s\n  %s\n", r.lastFail.Signature, r.lastFail.Part, strings.ReplaceAll(r.lastFail.Message, "\n", "\n  "))
 		for _, l := range r.lastFail.Trace {
 			fmt.Printf("    | %s\n", l)
